@@ -75,7 +75,8 @@ class C06(Check):
             "multisets of keys (and object identity for the object variant). (b) diagnostics: one base per semantic "
             "class of B1 and per conditional structure of the pairs x all fact lists of length <=2 over "
             "{a,!a,b,(a,b),(a;b),Bottom,Top} (strings and nodes) x the four (extended, uses_facts) cases; oracle: the five "
-            "flags from their definitions. (c) refusal: every operator/back-end/mode on every base of those families the "
+            "flags from their definitions; plus sequences of three diagnostics calls on ONE base object (each must answer as on a "
+            "fresh object and leave the caller's base unchanged). (c) refusal: every operator/back-end/mode on every base of those families the "
             "mode must reject and on the empty base must raise. distinct_nontrivial = distinct (base, mode) with a "
             "multi-layer or rejected partition, plus distinct diagnostic cases with facts.")
     assumptions = ["reference model vf/ref.py", "nothing is claimed beyond 3 atoms / 3 conditionals per base"]
@@ -106,6 +107,8 @@ class C06(Check):
         self.nd = len(dbases)
         for i in range(0, len(dbases), 4):
             out.append(("diag", dbases[i:i + 4]))
+        for i in range(0, len(dbases), 12):
+            out.append(("diag-history", dbases[i:i + 12]))
         # refusal
         rb = [[c] for c in scopes.C2] + [conds for conds, _ in reps]
         reps3, _ = scopes.structural_scope(scopes.L3T, scopes.SIG3, 3, ("weak-finite", "weak-nofinite", "inconsistent"), seed, 1)
@@ -185,6 +188,38 @@ class C06(Check):
                         elif uses_facts:
                             res.nontrivial.add(hash((tuple(conds), extended, tuple(fl), how)))
                         res.counters["diagnostics_cases"] += 1
+        elif task[0] == "diag-history":
+            # E-seq: ONE belief-base object goes through a sequence of diagnostics calls with different fact lists; every
+            # call must answer as on a fresh object and must leave the caller's base untouched
+            from inference.consistency_diagnostics import consistency_diagnostics
+
+            sig = scopes.SIG2
+            seqs = [[[a], [N(a)], [b]], [[A(a, b)], [BOT], [a]], [[b, a], [O(a, b)], [N(a), b]]]
+            for conds in task[1]:
+                for extended in (False, True):
+                    for seq in seqs:
+                        bb = drive.mkbb(sig, conds)
+                        keys0 = list(bb.conditionals.keys())
+                        for step, fl in enumerate(seq):
+                            exp = ref_diag(sig, conds, fl, extended, True)
+                            try:
+                                d = consistency_diagnostics(bb, extended=extended, uses_facts=True, on_inconsistent="silent",
+                                                            facts=[forms.to_pysmt(f) for f in fl])
+                                got = {k: d.get(k) for k in exp if k in d}
+                            except Exception as e:  # noqa: BLE001
+                                got = drive.exc_obs(e)
+                            res.evals += 1
+                            dig.append(repr(got))
+                            keys1 = list(bb.conditionals.keys())
+                            if got != exp or keys1 != keys0:
+                                res.violation(self.id, "diagnostics-history", {"sig": sig, "conds": [forms.ctxt(c) for c in conds], "conds_f": conds,
+                                              "extended": extended, "fact_sequence": [[forms.txt(f) for f in x] for x in seq[:step + 1]],
+                                              "seq_f": seq[:step + 1], "config": "diagnostics-history"}, {"flags": exp, "base_keys": keys0},
+                                              {"flags": got, "base_keys": keys1})
+                                break
+                        else:
+                            res.nontrivial.add(hash((tuple(conds), extended, repr(seq))))
+                        res.counters["diagnostics_histories"] += 1
         else:
             q = drive.mkcond((b, a))
             for sig, conds, cls in task[1]:
@@ -221,6 +256,9 @@ class C06(Check):
             got = impl_partitions(bb, c["weakly"])[0 if c["config"] == "consistency" else 1]
             exp = ref_partition_keys([forms.sem(x, sig) for x in conds], forms.allmask(sig), c["weakly"])
             return {"observed": got, "expected": exp, "violates": got != exp}
+        if rec["kind"] == "diagnostics-history":
+            r2 = self.run(("diag-history", [conds]))
+            return {"observed": [v["observed"] for v in r2.violations[:2]], "violates": bool(r2.violations)}
         if rec["kind"] == "diagnostics":
             from inference.consistency_diagnostics import consistency_diagnostics
 
